@@ -131,17 +131,29 @@ def replay_sl(ctx, doc, k):
             return np.array([float(dm[(xs[i], xs[j])]) for i in range(len(xs)) for j in range(i + 1, len(xs))])
     rp = dict(kind="replay", doc=doc, k=k)
     ctx.case(dict(fn="hierarchical_clustering/single", n=n, D=doc["D"], t=t), nontrivial=len(doc["part"]) not in (1, n))
+    # option dictionaries that live across calls (a caller keeps one options dict and loops over data sets): every second
+    # behaviour passes the SAME dict objects as earlier calls did; they must come back unchanged
+    shared = k % 2 == 1
+    lk = _SHARED_KWS.setdefault(("l", "single"), dict(method="single")) if shared else dict(method="single")
+    ck = _SHARED_KWS.setdefault(("c", t), dict(t=t, criterion="distance")) if shared else dict(t=t, criterion="distance")
     try:
-        link, flat = prs.hierarchical_clustering(list(range(1, n + 1)), metric=Table(), linkage_kws=dict(method="single"),
-                                                 cluster_kws=dict(t=t, criterion="distance"))
+        link, flat = prs.hierarchical_clustering(list(range(1, n + 1)), metric=Table(), linkage_kws=lk, cluster_kws=ck)
     except Exception as e:      # noqa: BLE001
         ctx.violation("hierarchical_clustering/raised", f"hierarchical_clustering(D={doc['D']}, t={t}) raised {type(e).__name__}: {e}"[:400], rp)
+        _SHARED_KWS.clear()
         return
+    if lk != dict(method="single") or ck != dict(t=t, criterion="distance"):
+        ctx.violation("hierarchical_clustering/options_argument_mutated",
+                      f"hierarchical_clustering(D={doc['D']}, t={t}) changed the caller's option dictionaries to linkage_kws={lk} cluster_kws={ck}", rp)
+        _SHARED_KWS.clear()
     got = partition_of([(i + 1, int(c)) for i, c in enumerate(flat)])
     want = frozenset(frozenset(p) for p in doc["part"])
     if got != want or len(flat) != n:
         ctx.violation("hierarchical_clustering/single_linkage_not_components",
                       f"hierarchical_clustering(single, D={doc['D']}, t={t}) -> {sorted(map(sorted, got))} want {sorted(map(sorted, want))}", rp)
+
+
+_SHARED_KWS = {}
 
 
 def lev(a, b):
